@@ -139,6 +139,11 @@ def step_defs(k, st):
         a = "(" + " + ".join(parts) + ")"
         if st["same"] and ins[0]["coeff"] != ins[1]["coeff"]:
             a = "(1 + %s)" % a
+    elif op == "dm":
+        t = diff("mpdm", "(from_mps4 %s)" % f(0), 0)
+        c = ceq(gi(ins[0]["coeff"]), outs[0]["coeff"])
+        l = meq("%smi0" % p, 0)
+        a = "0" if st.get("dtype_ok", True) else "1"
     elif op == "opadd":
         t = diff("mpo", "(add4 %s %s)" % (f(0), f(1)), 0)
         l = meq("(add_meta %s %smi0 %smi1)" % (nat(n), p, p), 0)
@@ -357,7 +362,7 @@ def run(ctx):
         by_op.setdefault(st["op"], []).append((st, v))
     opclass = {"add": ["add:", "sub:"], "dmadd": ["mpdm-add:"], "opadd": ["opadd:"], "conj_trans": ["conj_trans:"], "apply": ["apply:", "contract:"],
                "opop": ["opop:"], "scale": ["scale:"], "opscale": ["opscale:"], "conj": ["conj:"], "opconj": ["conj:"], "dot": ["dot:"],
-               "opdot": ["opdot:"], "dmdot": ["opdot:"], "distance": ["distance:"], "dmapply_l": ["mpo-apply-mpdm:"], "dmapply_r": ["mpdm-apply-mpo:"], "move": ["operand-gauge-history:"]}
+               "opdot": ["opdot:"], "dmdot": ["opdot:"], "distance": ["distance:"], "dm": ["mpdm-from-mps:"], "dmapply_l": ["mpo-apply-mpdm:"], "dmapply_r": ["mpdm-apply-mpo:"], "move": ["operand-gauge-history:"]}
     for op, lst in by_op.items():
         st, v = lst[0]
         which = [n_ for n_, x in zip(("site tensors", "coeff", "labels (qn/qnidx/qntot/to_right)", "operands after the call"), v) if x]
@@ -366,7 +371,7 @@ def run(ctx):
                "dmapply_l": "C03_apply_operator / C03_apply_valid_operator", "dmapply_r": "C03_apply_operator / C03_mpdm_apply_valid",
                "scale": "C03_scale_state / C03_scale_valid", "opscale": "C03_scale_operator", "conj": "C03_conj_state / C03_conj_valid", "opconj": "C03_conj_operator",
                "dot": "C03_dot_state", "opdot": "C03_dot_operator", "dmdot": "C03_dot_operator", "move": "C03_move_qnidx_meaning",
-               "distance": "C03_mps_distance / C03_distance_state"}.get(op, "?")
+               "distance": "C03_mps_distance / C03_distance_state", "dm": "C03_mpdm_from_mps"}.get(op, "?")
         broken = "correspondence Model/Mp.v+Qn.v vs implementation for `%s` (%s differ); the theorems %s no longer describe the code" % (op, ", ".join(which), thm)
         detail = {"op": op, "mismatch_counts [tensors, coeff, labels, operands-after]": v, "mismatching_steps": len(lst),
                   "impl_result_labels": {"qn": st["out"][0]["qn"], "qnidx": st["out"][0]["qnidx"], "qntot": st["out"][0]["qntot"]} if st.get("out") else None,
